@@ -52,7 +52,7 @@ CLAIMS = {
         ref="DESIGN.md §4 C10"),
     "C11": dict(
         tech="static analysis: control dependence of loader construction on should_instrument, predicate truth-table vs the statement, install/uninstall object identity, checker dataflow finder->loader->transformer (ast + CFG)",
-        text="Decides the predicate shape (equality or prefix with the dot separator), that instrumentation is control-dependent on it, install/uninstall pairing and per-install checker flow, that the configured names reach the finder unchanged and a possibly shared name list is never mutated in place, and the two front ends' wiring.",
+        text="Decides the predicate shape (equality or prefix with the dot separator), that instrumentation is control-dependent on it, install/uninstall pairing and per-install checker flow, that the configured names reach the finder unchanged and a possibly shared name list is never mutated in place, and the two front ends' wiring; nothing but install_import_hook (or an installer of the same shape) puts a finder on sys.meta_path; the pytest plugin never uninstalls a hook kept in a module-level variable.",
         ref="DESIGN.md §4 C11"),
     "C12": dict(
         tech="static analysis: entry-value flag typestate (value at every exit = value at entry, incl. BaseException edges, re-entrancy via call-graph dispatch edges), class-object store census (ast + CFG + call graph)",
@@ -64,7 +64,7 @@ CLAIMS = {
         ref="DESIGN.md §4 C13"),
     "C14": dict(
         tech="static analysis: interprocedural may-raise census (only ValueError from construction), guard-dominance for partial operations on the user's spec, modifier-loop and legality-matrix extraction vs the documented one (ast + CFG)",
-        text="Decides exception discipline and totality of annotation construction, the modifier loop against the documented modifier bullets, the legality matrix {fixed,symbolic,anonymous} x {variadic,anonymous,treepath,broadcastable}, that the comma / trailing-# tests see the token as written, and that nothing parses or compiles a piece of the specification at construction time; the meaning of accepted forms is C01.",
+        text="Decides exception discipline and totality of annotation construction, the modifier loop against the documented modifier bullets, the legality matrix {fixed,symbolic,anonymous} x {variadic,anonymous,treepath,broadcastable}, that the comma / trailing-# tests see the token as written, that nothing parses or compiles a piece of the specification at construction time, and that a token is not used as a string after it was re-bound to its parsed value (raises followed through error factories); the meaning of accepted forms is C01.",
         ref="DESIGN.md §4 C14"),
     "C15": dict(
         tech="static analysis: reaching-definition and order agreement in the nesting branch, union/TypeVar table, scalar-ladder prefix agreement, lazy aliases vs docs code block (ast)",
@@ -72,23 +72,23 @@ CLAIMS = {
         ref="DESIGN.md §4 C15"),
     "C16": dict(
         tech="static analysis: '?'-label typestate with guard-correlated product states and re-entrancy (call-graph dispatch edges), sibling agreement of treepath prefixing, label-template key disjointness (ast + CFG)",
-        text="Decides label ownership (a clear only after this activation's own set, restore instead of constant reset where re-entrant), identical treepath prefixing for single and variadic dims, key disjointness of the label template, and the two AnnotationError conditions.",
+        text="Decides label ownership (a clear only after this activation's own set, restore instead of constant reset where re-entrant), identical treepath prefixing for single and variadic dims, key disjointness of the label template, the two AnnotationError conditions, that the label only ever builds keys (labelled keys are never taken apart) and that the leaves list has one source (positions are labels).",
         ref="DESIGN.md §4 C16"),
     "C17": dict(
         tech="static analysis: information-flow census of every use of the checked value (only isinstance / hasattr / .shape / .dtype / forwarding) in the check functions and wrappers (ast def-use)",
-        text="Non-interference: the checked value is observed only through its type, .shape and .dtype, so no element value can influence a verdict and a tracer is never concretised by jaxtyping; the argument memo keeps every bound argument whatever its value (values handed to new helpers and loop variables over the bound arguments are followed); behaviour of jax transformations is trusted.",
+        text="Non-interference: the checked value is observed only through its type, .shape and .dtype, so no element value can influence a verdict and a tracer is never concretised by jaxtyping; the argument memo keeps every bound argument whatever its value (values handed to new helpers and loop variables over the bound arguments are followed); neither the check path nor the wrappers consult a tracing framework or sys.modules; behaviour of jax transformations is trusted.",
         ref="DESIGN.md §4 C17"),
     "C18": dict(
         tech="static analysis: cache-tag composition, hash determinism (hashlib only), extent of the cache_from_source patch against a table of loader methods that execute module code, must-pass-through-the-transformer for every return of source_to_code (ast + CFG dominance)",
-        text="Decides that the cache tag carries a version literal and the per-loader typechecker hash, the hash is a deterministic digest, the patched region executes no module code, source validation is not bypassed, every code object source_to_code returns was compiled from the transformed tree, nothing run from source_to_code (which importlib calls inside the patched region) imports or executes a module named at run time, and no memo of compiled code shared between hooks is keyed without the loader's typechecker.",
+        text="Decides that the cache tag carries a version literal and the per-loader typechecker hash, the hash is a deterministic digest, the patched region executes no module code, source validation is not bypassed, every code object source_to_code returns was compiled from the transformed tree, nothing run from source_to_code (which importlib calls inside the patched region) imports or executes a module named at run time, no memo of compiled code shared between hooks is keyed without the loader's typechecker, and nothing read while compiling comes from the config object or the environment (inputs the tag does not carry).",
         ref="DESIGN.md §4 C18"),
     "C19": dict(
         tech="static analysis: dominance of the disable guard over bind/push/checks, truth table of the guard over its three atoms, branch table of _maybestr2bool vs the statement, env->update->attribute wiring (ast + CFG)",
-        text="Decides that the pass-through is taken iff at least one switch is on, is read per call (never at decoration time nor when a hooked module is imported / instrumented), dominates every check; the switches live in one process-wide object (no thread-local / context-local store); the switch parser equals the table in the statement (constant tables of spellings followed); the environment variable is wired to the attribute the wrapper reads, no other key writes it, lazily loaded settings do not reload it.",
+        text="Decides, for every wrapper jaxtyped hands back that opens a binding context (new-style and old-style), that the pass-through is taken iff at least one switch is on, is read per call (never at decoration time nor when a hooked module is imported / instrumented), dominates every check; the switches live in one process-wide object (no thread-local / context-local store); the switch parser equals the table in the statement (constant tables of spellings followed); the environment variable is wired to the attribute the wrapper reads, no other key writes it, nothing outside the config module writes it, lazily loaded settings do not reload it.",
         ref="DESIGN.md §4 C19"),
     "C20": dict(
         tech="static analysis: reducer registration, no-sentinel-on-the-wire, determinacy of every class-dict field from what the reducer replays (ast def-use)",
-        text="Decides that a reducer is registered for the metaclass at import time, replays only picklable fields, and that every attribute of an annotation class is a function of what the reducer replays (constructor arguments), including nested annotations; by-reference resolvability of categories (C03.1a); no verdict table keyed by id()/str()/name of something a reloaded copy owns; nothing but plain literals is put on an annotation class after it was created (by-value serialisers ship the namespace).",
+        text="Decides that a reducer is registered at import time for exactly every metaclass _make_array can instantiate (copyreg dispatches on the exact type), replays only picklable fields, and that every attribute of an annotation class is a function of what the reducer replays (constructor arguments), including nested annotations; by-reference resolvability of categories (C03.1a); no verdict table keyed by id()/str()/name of something a reloaded copy owns; nothing but plain literals is put on an annotation class after it was created, and no function building the namespace reads a module-level table whose stored values depend on registration order in this process (by-value serialisers ship the namespace).",
         ref="DESIGN.md §4 C20"),
 }
 
